@@ -107,9 +107,7 @@ func runConc(c *ConcCase, ws *crasheng.WALStats) *vf.Failure {
 	}()
 	done := make(chan struct{})
 	go func() { wg.Wait(); close(done) }()
-	select {
-	case <-done:
-	case <-time.After(120 * time.Second):
+	if !vf.WaitScheduled(done, 120*time.Second) {
 		atomic.StoreInt32(&stop, 1)
 		return vf.Failf("workload-hang", "concurrent workload did not finish within 120 s")
 	}
